@@ -217,6 +217,13 @@ def run_case(spec, workdir):
         def slow(f):
             # in parallel runs some tiles take much longer than every (dilated) time-out of the shutdown handshake
             def g(lon, lat):
+                if _CONC["slow_first"] > 0:
+                    # concurrent jobs: the source of the FIRST job is slow for its first tiles (the sampler runs inside the
+                    # tile's locked region), so the second job arrives at a tile that is held for a long time
+                    _CONC["slow_first"] -= 1
+                    import time as _t
+
+                    _t.sleep(0.12)
                 if k > 1 and (float(lon[0, 0]) * 1e6) % 1.0 < 0.25:
                     import time as _t
 
@@ -345,6 +352,9 @@ def run_case(spec, workdir):
     return res
 
 
+_CONC = dict(slow_first=0)
+
+
 def run_concurrent_jobs(fn, seed):
     """the two update passes as two concurrent jobs (processes) on one pyramid, each descheduled at random between
     statements of toasty's tile I/O; returns (outcome, info) like models.run_stage"""
@@ -360,7 +370,13 @@ def run_concurrent_jobs(fn, seed):
             try:
                 os.close(go_w)
                 os.read(go_r, 1)
-                sched.install(seed + j, p=0.03, files=("pyramid.py",), lo=0.001, hi=0.03, budget=1.0)
+                if seed % 2:
+                    if j == 0:
+                        _CONC["slow_first"] = 2
+                    else:
+                        time.sleep(0.015)
+                sched.dilate_clocks(300.0, names=("perf_counter",))  # the clock lock time-outs read: 60 ms are 18 s
+                sched.install(seed + j, p=0.03, files=("pyramid.py",), lo=0.001, hi=0.1, budget=1.5)
                 fn(j)
             except BaseException as e:  # noqa
                 evlog.ev("stage_exc", e=repr(e)[:300], etype=type(e).__name__)
